@@ -45,7 +45,7 @@ def s1(ctx, rep):
             parser = ITEM_VISITORS[f['name']]
             # inlined view with every inherent helper of the visitor expanded (collect_result, a `collect_item(attrs, |os| parse(..))`
             # wrapper, a combined test …): the rule looks at what happens to the parser's result, wherever that is written
-            helpers = tuple(g['name'].split('::')[-1] for g in ctx.fns(file='visitors.rs') if (g.get('self_ty') or '').startswith('TypeShareVisitor') and not g.get('trait'))
+            helpers = tuple(g['name'].split('::')[-1] for g in ctx.fns(file='visitors.rs') if ((g.get('self_ty') or '').startswith('TypeShareVisitor') or not g.get('self_ty')) and not g.get('trait'))
             from .. import inline as _inl
             fv = _inl.view(ctx, f, depth=4, force=helpers)
             cr = [c for c in fv['calls'] if str(c.get('f')) == parser]
